@@ -1154,7 +1154,7 @@ def fault_family(code):
 
 
 class RunResult(object):
-    __slots__ = ('calls', 'fault', 'crash', 'out', 'where', 'tb', 'in_fault')
+    __slots__ = ('calls', 'fault', 'crash', 'out', 'where', 'tb', 'in_fault', 'out_object', 'descriptor')
 
     def outcome_class(self):
         if self.crash:
@@ -1170,6 +1170,7 @@ def run_request(b, server, data):
     import traceback
     r = RunResult()
     r.calls, r.fault, r.crash, r.out, r.where, r.tb, r.in_fault = [], None, None, None, None, None, None
+    r.out_object, r.descriptor = None, None
     del b.calls[:]
     del b.in_hdrs[:]
     stage = 'generate_contexts'
@@ -1186,6 +1187,7 @@ def run_request(b, server, data):
         else:
             r.in_fault = fault_family(ctx.in_error.faultcode)
             ctx.out_error = ctx.in_error
+        r.out_object, r.descriptor = ctx.out_object, ctx.descriptor
         stage = 'get_out_string'
         server.get_out_string(ctx)
         r.out = b''.join(ctx.out_string)
@@ -1201,6 +1203,49 @@ def run_request(b, server, data):
     return r
 
 
+def stream_serialize(app, descriptor, out_object):
+    """the second emission path of XmlDocument: serialize() with ctx.out_stream set (-> incgen -> to_parent on an
+    etree.xmlfile); returns the root element parsed from the bytes written to the stream"""
+    from io import BytesIO
+    from lxml import etree
+    from spyne.context import FakeContext
+    fctx = FakeContext(app=app, descriptor=descriptor, out_object=out_object)
+    fctx.out_stream = BytesIO()
+    fctx.out_error = None
+    app.out_protocol.serialize(fctx, app.out_protocol.RESPONSE)
+    return etree.fromstring(fctx.out_stream.getvalue())
+
+
+def stream_check(ctx, b, app, r, u, out_ty, want_out, doc_body, replay, pid, queries, expect, model_q):
+    """XmlDocument only: the streamed response must parse to the tree the document path built, denote the returned
+    value for the reference decoder (T3) and equal the model's encodeStream (T2)"""
+    if r.out_object is None or r.descriptor is None:
+        return
+    try:
+        root = stream_serialize(app, r.descriptor, r.out_object)
+    except Exception as e:
+        ctx.finding('%s:stream-crash:%s' % (pid, type(e).__name__), 'serialising the response to ctx.out_stream raised %r' % e, replay)
+        return
+    ctx.hit('%s:stream-path' % pid)
+    snode = node_of(root)
+    try:
+        dec = ref_decode_one(b, out_ty, root, u['tns'], u['tns'])
+    except RefError as e:
+        dec = {'undecodable': str(e)}
+    if dec != want_out:
+        d = 'undecodable' if 'undecodable' in dec else first_diff(want_out, dec)
+        fid = '%s:xsi-type-unresolvable:xml-stream' % pid if 'does not resolve' in str(dec) else \
+            '%s:stream-response-differs:%s' % (pid, diff_kind(d))
+        ctx.finding(fid, 'the response written to ctx.out_stream does not denote the returned value: %s'
+                    % (dec.get('undecodable') if 'undecodable' in dec else d),
+                    dict(replay, stream=True, decoded=dec, expected=want_out))
+    elif doc_body is not None and snode != node_of(doc_body):
+        ctx.finding('%s:stream-tree-differs' % pid, 'ctx.out_stream and ctx.out_document carry different element trees',
+                    dict(replay, stream=True))
+    queries.append(dict(model_q, op='xml.encodeStream'))
+    expect.append(('encodeStream', {'ok': [snode]}, dict(replay, stream=True)))
+
+
 def facts_lean(f):
     return '''-- GENERATED by harness/xmlblock.py (T1) from /repo on every run. Do not edit.
 import SpyneModel.Client
@@ -1212,6 +1257,7 @@ def factsXml : Xml.FactsXml where
   xsiTypeCheck := %s
   childAttrGuard := %s
   emptyStringText := %s
+  streamSameTree := %s
 
 def factsSoap : Soap.FactsSoap where
   emptyBodyGuard := %s
@@ -1222,7 +1268,8 @@ def factsClient : Client.FactsClient where
 
 end SpyneModel.Generated
 ''' % (f['nilRule'], str(f['xsiTypeCheck']).lower(), str(f['childAttrGuard']).lower(),
-       str(f['emptyStringText']).lower(), str(f['emptyBodyGuard']).lower(), str(f['outHeaderTupleOk']).lower(),
+       str(f['emptyStringText']).lower(), str(f['streamSameTree']).lower(), str(f['emptyBodyGuard']).lower(),
+       str(f['outHeaderTupleOk']).lower(),
        str(f['kwFalsyKept']).lower())
 
 
@@ -1328,6 +1375,35 @@ def measure_facts():
     f['emptyBodyGuard'] = r[0] == 'fault' and r[1].startswith('Client')
     w['emptyBodyGuard'] = {'proto': 'soap11', 'validator': None, 'request': d,
                            'expected': 'Client fault', 'observed': repr(r)}
+    # streamSameTree: a polymorphic value with a subclass instance, nil and a repeated member, both emission paths
+    us = witness_universe()
+    us['idx'] = 9996
+    rep = dict(default_occ(), max=3)
+    us['methods'] = [{'name': 's0', 'args': [], 'rets': [{'k': 'ref', 'cls': 'W0', 'o': default_occ()},
+                                                           {'k': 'arr', 'elem': {'k': 'ref', 'cls': 'W0', 'o': default_occ()},
+                                                            'o': default_occ()},
+                                                           {'k': 'ref', 'cls': 'W2', 'o': rep}]}]
+    bs = build_classes(us)
+    apps, servers_ = make_app(bs, 'xml', None, polymorphic=True)
+    finish_built(bs, apps)
+    V0, V1, V2 = bs.cls['W0'], bs.cls['W1'], bs.cls['W2']
+    bs.ret['s0'] = (V1(x=1, s='a', y=2), [V0(s='q'), V1(s='z', y=3), None], [V2(z=1), V2(z=2)])
+    rs = run_request(bs, servers_, b'<s0 xmlns="urn:w"/>')
+    same, obs = False, 'crash=%s fault=%s' % (rs.crash, rs.fault)
+    if rs.out and not rs.crash and not rs.fault:
+        try:
+            from lxml import etree as _et
+            doc_node = node_of(_et.fromstring(rs.out))
+            st_node = node_of(stream_serialize(apps, rs.descriptor, rs.out_object))
+            same = doc_node == st_node
+            obs = 'trees equal' if same else 'document path: %s ... / stream path: %s ...' % (
+                json.dumps(doc_node)[:300], json.dumps(st_node)[:300])
+        except Exception as e:
+            obs = repr(e)
+    f['streamSameTree'] = same
+    w['streamSameTree'] = {'proto': 'xml', 'validator': None, 'request': '<s0 xmlns="urn:w"/> (polymorphic=True), response '
+                           'serialised with ctx.out_stream set', 'expected': 'the bytes written to ctx.out_stream parse to the same '
+                           'element tree (xsi:type resolved) as ctx.out_document', 'observed': obs}
     # outHeaderTupleOk: two declared out headers, ctx.out_header assigned a tuple
     from lxml import etree
     u2 = witness_universe()
@@ -1375,9 +1451,9 @@ def measure_facts():
 
 
 GOOD = {'nilRule': 'xsdBoolean', 'xsiTypeCheck': True, 'childAttrGuard': True, 'emptyStringText': True,
-        'emptyBodyGuard': True, 'outHeaderTupleOk': True, 'kwFalsyKept': True}
-SWITCH_PROPS = {'C01': ('nilRule', 'emptyStringText', 'outHeaderTupleOk', 'kwFalsyKept'), 'C04': ('xsiTypeCheck',), 'C05': ('nilRule', 'emptyStringText'),
-                'C10': ('childAttrGuard', 'emptyBodyGuard'), 'C16': ()}
+        'emptyBodyGuard': True, 'outHeaderTupleOk': True, 'kwFalsyKept': True, 'streamSameTree': True}
+SWITCH_PROPS = {'C01': ('nilRule', 'emptyStringText', 'outHeaderTupleOk', 'kwFalsyKept', 'streamSameTree'), 'C04': ('xsiTypeCheck',), 'C05': ('nilRule', 'emptyStringText'),
+                'C10': ('childAttrGuard', 'emptyBodyGuard'), 'C16': ('streamSameTree',)}
 
 
 def t1(ctx):
@@ -1692,10 +1768,13 @@ def part_c01(ctx):
                     expect.append(('decode', impl_decode_outcome(b, r), case))
                     if r.out is not None and not r.fault and not r.crash:
                         body = unwrap_envelope(proto, etree.fromstring(r.out))
-                        queries.append({'op': 'xml.encode', 'cfg': cfg_json(None), 'iface': slim_iface(b, False),
-                                        'ns': u['tns'], 'name': out_ty['name'], 'ty': out_ty, 'val': outv})
+                        mq = {'op': 'xml.encode', 'cfg': cfg_json(None), 'iface': slim_iface(b, False),
+                              'ns': u['tns'], 'name': out_ty['name'], 'ty': out_ty, 'val': outv}
+                        queries.append(mq)
                         expect.append(('encode', {'ok': [node_of(body)]}, case))
                         ctx.cov['traces_validated_against_impl'] += 1
+                        if proto == 'xml' and validator is None:
+                            stream_check(ctx, b, app, r, u, out_ty, want_out, body, replay, 'c01', queries, expect, mq)
     answers = ctx.model(queries, driver='C01')
     for q, (op, impl, case), mod in zip(queries, expect, answers):
         if impl is None:
@@ -1929,6 +2008,7 @@ def part_c04(ctx):
                                                         'ty': in_ty, 'val': None})
                         vv = queries[-1]['val']
                         expect.append(('hasTy', {'ok': py_has_ty_one(b, in_ty, vv)} if _no_bad(vv) else None, replay))
+    c04_sequences(ctx)
     answers = ctx.model(queries, driver='C01')
     for q, (op, impl, case), mod in zip(queries, expect, answers):
         if impl is not None and norm_answer(mod) != impl:
@@ -1946,6 +2026,8 @@ def _no_bad(v):
 def replay(ctx, obj):
     """re-execute one recorded case on the implementation (and, when the document parses, on the model)"""
     kind = obj.get('kind')
+    if kind == 'c04seq':
+        return replay_c04seq(ctx, obj)
     if kind not in ('switch', 'c01', 'c01x', 'c01c', 'c04', 'c05', 'c10', 'c16', 'c16-order') or \
             (kind == 'switch' and obj.get('switch') not in GOOD):
         raise KeyError(kind)        # another block's replay file
@@ -2501,6 +2583,8 @@ def part_c16(ctx):
                                  'name': out_ty['name'], 'ty': out_ty, 'val': outv}
                             queries.append(q)
                             expect.append(('encode', {'ok': [node_of(body)]}, replay))
+                            if proto == 'xml' and validator is None:
+                                stream_check(ctx, b, app, r, u, out_ty, want_out, body, replay, 'c16', queries, expect, q)
                         parsed = parse_like_spyne(data, app.in_protocol)
                         q = decode_query(b, proto, validator, node_of(parsed), need_iface=True)
                         q['cfg']['polymorphic'] = poly
@@ -2991,6 +3075,10 @@ def part_c01_ext(ctx):
                         queries.append({'op': 'response', 'cfg': cfg_json(None), 'iface': slim_iface(b, False), 'style': style,
                                         'outName': mi['out_name'], 'outMsg': out_ty, 'rets': rets})
                         expect.append(('response', {'ok': [node_of(body)]}, replay))
+                        if proto == 'xml' and validator is None:
+                            stream_check(ctx, b, app, r, u, out_ty, want_out, body, replay, 'c01', queries, expect,
+                                         {'op': 'xml.encode', 'cfg': cfg_json(None), 'iface': slim_iface(b, False), 'ns': u['tns'],
+                                          'name': mi['out_name'], 'ty': out_ty, 'val': outv})
                         queries.append({'op': 'argsOf', 'cfg': cfg_json(None), 'iface': slim_iface(b, False), 'style': style,
                                         'val': py_norm_x(b, in_ty, inv, True)})
                         expect.append(('argsOf', {'ok': want_args}, replay))
@@ -3196,3 +3284,139 @@ def replay_client(ctx, obj):
         if k in obj:
             print('%s: %s' % (k, json.dumps(obj[k])[:1500]))
     return 1
+
+
+# ====================================================================================== C04: request sequences
+def _c04seq_app(proto, validator):
+    """{tns}Item extends {tns}Base; {ext}Item is unrelated but has the same local type name"""
+    from spyne import Application, ServiceBase, rpc, ComplexModel, Unicode, Integer
+    from spyne.server import ServerBase
+    tns, ext = 'urn:seq.tns', 'urn:seq.ext'
+    Base = type(ComplexModel)('Base', (ComplexModel,), {'__namespace__': tns, '_type_info': [('a', Integer)]})
+    TnsItem = type(ComplexModel)('TnsItem', (Base,), {'__namespace__': tns, '__type_name__': 'Item', '_type_info': [('b', Unicode)]})
+    ExtItem = type(ComplexModel)('ExtItem', (ComplexModel,), {'__namespace__': ext, '__type_name__': 'Item',
+                                                             '_type_info': [('a', Integer), ('z', Unicode)]})
+    got = []
+
+    def store(ctx, o):
+        got.append(('store', o))
+        return 'ok'
+
+    def lookup(ctx, o):
+        got.append(('lookup', o))
+        return 'ok'
+    Svc = type('SeqSvc', (ServiceBase,), {'store': rpc(Base, _returns=Unicode)(store),
+                                          'lookup': rpc(ExtItem, _returns=Unicode)(lookup)})
+    _APP_COUNTER[0] += 1
+    app = Application([Svc], tns, name='SeqApp%d' % _APP_COUNTER[0], in_protocol=make_protocol(proto, validator),
+                      out_protocol=make_protocol(proto, None))
+    return app, ServerBase(app), got, {'Base': Base, 'TnsItem': TnsItem, 'ExtItem': ExtItem}, tns, ext
+
+
+def _c04seq_payload(kind, prefix, tns, ext):
+    """(body entry XML, expectation): expectation = ('deliver', method, class name) | ('fault',)"""
+    xsi = 'xmlns:xsi="%s"' % XSI
+    if kind == 'plain':
+        return '<t:store xmlns:t="%s"><t:o><t:a>1</t:a></t:o></t:store>' % tns, ('deliver', 'store', 'Base')
+    if kind == 'store-sub':         # legal: registered subclass, prefix bound to tns
+        return ('<t:store xmlns:t="%s" %s><t:o xmlns:%s="%s" xsi:type="%s:Item"><t:a>1</t:a><t:b>bb</t:b></t:o></t:store>'
+                % (tns, xsi, prefix, tns, prefix)), ('deliver', 'store', 'TnsItem')
+    if kind == 'lookup-same':       # legal: restates the declared type, prefix bound to ext
+        return ('<t:lookup xmlns:t="%s" %s><t:o xmlns:%s="%s" xsi:type="%s:Item"><%s:a>2</%s:a><%s:z>zz</%s:z></t:o></t:lookup>'
+                % (tns, xsi, prefix, ext, prefix, prefix, prefix, prefix, prefix)), ('deliver', 'lookup', 'ExtItem')
+    if kind == 'store-foreign':     # not legal: unrelated class for a Base slot
+        return ('<t:store xmlns:t="%s" %s><t:o xmlns:%s="%s" xsi:type="%s:Item"><%s:a>1</%s:a></t:o></t:store>'
+                % (tns, xsi, prefix, ext, prefix, prefix, prefix)), ('fault',)
+    if kind == 'lookup-foreign':    # not legal: {tns}Item for an {ext}Item slot
+        return ('<t:lookup xmlns:t="%s" %s><t:o xmlns:%s="%s" xsi:type="%s:Item"/></t:lookup>'
+                % (tns, xsi, prefix, tns, prefix)), ('fault',)
+    raise core.Infra(kind)
+
+
+def _c04seq_run(proto, validator, steps, via_wsgi=False):
+    """run a sequence of (kind, prefix) on ONE protocol instance; returns per step (payload, expectation, observation)"""
+    app, server, got, classes, tns, ext = _c04seq_app(proto, validator)
+    holder = Built()
+    holder.calls, holder.in_hdrs = [], []
+    out = []
+    for kind, prefix in steps:
+        payload, exp = _c04seq_payload(kind, prefix, tns, ext)
+        if proto != 'xml':
+            ns = NS_SOAP11 if proto == 'soap11' else NS_SOAP12
+            payload = '<e:Envelope xmlns:e="%s"><e:Body>%s</e:Body></e:Envelope>' % (ns, payload)
+        del got[:]
+        data = payload.encode()
+        if via_wsgi:
+            ctype = 'application/soap+xml; charset=utf-8' if proto == 'soap12' else 'text/xml; charset=utf-8'
+            status, _, body, exc = wsgi_call(app, data, ctype)
+            fault = None if (status or '').startswith('200') else (response_fault_code(proto, body or b'') or status)
+            crash = exc
+        else:
+            r = run_request(holder, server, data)
+            fault, crash = r.in_fault or r.fault, r.crash
+        if crash:
+            obs = ('crash', crash)
+        elif got:
+            o = got[0][1]
+            name = [k for k, c in classes.items() if type(o) is c]
+            obs = ('deliver', got[0][0], name[0] if name else type(o).__name__)
+        elif fault:
+            obs = ('fault',) if str(fault).startswith('Client') else ('server-fault', str(fault))
+        else:
+            obs = ('nothing',)
+        out.append((payload, exp, obs))
+    return out
+
+
+C04SEQ_KINDS = ['plain', 'store-sub', 'lookup-same', 'store-foreign', 'lookup-foreign']
+
+
+def c04_sequences(ctx):
+    """consecutive requests on the same protocol instance that bind the same prefix to different namespaces, with an
+    unrelated class of the same local name in another namespace: every legal request must be delivered with the class it
+    names, every illegal one answered with a Client fault, whatever came before"""
+    rng = ctx.rng
+    n = 60 if ctx.thorough else 12
+    for i in range(n):
+        proto = rng.choice(PROTOS)
+        validator = rng.choice(VALIDATORS)
+        via_wsgi = rng.random() < 0.3
+        steps = [(rng.choice(C04SEQ_KINDS), rng.choice(['p', 'p', 'q'])) for _ in range(rng.randint(4, 9))]
+        # the rebinding pattern itself, always present once
+        if i % 3 == 0:
+            steps = [('lookup-same', 'p'), ('store-sub', 'p'), ('lookup-same', 'p'), ('store-foreign', 'p')] + steps
+        res = _c04seq_run(proto, validator, steps, via_wsgi)
+        for j, (payload, exp, obs) in enumerate(res):
+            ctx.case({'seq': i, 'j': j, 'p': proto, 'v': validator, 'k': steps[j]}, True)
+            ctx.hit('c04:seq:%s' % steps[j][0])
+            ok = (obs == exp) if exp[0] == 'deliver' else (obs == ('fault',))
+            if ok:
+                continue
+            replay = {'kind': 'c04seq', 'proto': proto, 'validator': validator, 'via_wsgi': via_wsgi,
+                      'steps': [list(s) for s in steps[:j + 1]], 'requests': [p for p, _, _ in res[:j + 1]],
+                      'expected': list(exp), 'observed': list(obs)}
+            if obs[0] == 'deliver' and (exp[0] != 'deliver' or obs[2] != exp[2]):
+                fid = 'c04:sequence:foreign-class-delivered'
+                what = ('after %d earlier requests on the same protocol instance, %s() received an instance of %s where %s '
+                        'was expected' % (j, obs[1], obs[2], exp[2] if exp[0] == 'deliver' else 'a Client fault'))
+            elif exp[0] == 'deliver':
+                fid = 'c04:sequence:legal-substitution-refused'
+                what = ('after %d earlier requests on the same protocol instance a legal request (%s, prefix %s) is answered with '
+                        '%r instead of being delivered as %s' % (j, steps[j][0], steps[j][1], obs, exp[2]))
+            else:
+                fid = 'c04:sequence:%s' % obs[0]
+                what = 'request %d of the sequence (%s) ended in %r, expected a Client fault' % (j, steps[j][0], obs)
+            ctx.finding(fid, what, replay)
+            break
+
+
+def replay_c04seq(ctx, obj):
+    steps = [tuple(s) for s in obj['steps']]
+    res = _c04seq_run(obj['proto'], obj.get('validator'), steps, obj.get('via_wsgi', False))
+    bad = 0
+    for j, (payload, exp, obs) in enumerate(res):
+        ok = (obs == exp) if exp[0] == 'deliver' else (obs == ('fault',))
+        print('%d. %-15s prefix=%s  expected %r  observed %r  %s' % (j, steps[j][0], steps[j][1], exp, obs, '' if ok else '<-- FAILS'))
+        print('   ', payload[:400])
+        bad += 0 if ok else 1
+    return 1 if bad else 0
